@@ -108,6 +108,17 @@ def run_spec(spec: dict) -> list[dict]:
             tree.run()
             for _ in range(int(drive[1])):
                 tree.run_step()
+        elif drive[0] == "phases":           # the two halves of a step called one after the other, as test/test_gsc.py does: the
+            for _ in range(int(drive[1])):   # metaepoch counter never moves and the tree itself never consults the global condition
+                if len(drive) > 2 and drive[2] == "direct":
+                    # ... or the caller serves the demes itself through their own public entry point
+                    hib = bool(tree.config.options.get("hibernation", False))
+                    for _lv, deme in reversed(tree.active_demes):
+                        if not (hib and deme._hibernating):
+                            deme.run_metaepoch(tree)
+                else:
+                    tree.run_metaepoch()
+                tree.run_sprout()
         elif drive[0] == "rerun":            # run() returned; the caller raises the limit of the global condition and calls run() again
             tree.run()
             inner = getattr(tree._gsc, "inner", tree._gsc)
